@@ -50,7 +50,7 @@ def run(tier, seed, replay=None):
     states, r = _states("MC_UF4_dump.cfg" if tier == "quick" else "MC_UF5_dump.cfg")
     ck.states += r["distinct"]
     ck.transitions += r["states"]
-    groups = run_tasks("c20", "run_uf_step", states, timeout=20)
+    groups = run_tasks("c20", "run_uf_step", states, timeout=120)
     steps = []
     for st, g in zip(states, groups):
         if not isinstance(g, list):
@@ -65,8 +65,8 @@ def run(tier, seed, replay=None):
     nh = 300 if tier == "quick" else 4000
     ucases = [drv.gen_uf_hist(rng) for _ in range(nh)]
     fcases = [drv.gen_fw_hist(rng) for _ in range(nh)]
-    utr = _fix(run_tasks("c20", "run_uf_hist", ucases, timeout=20), ucases, "uf_hist")
-    ftr = _fix(run_tasks("c20", "run_fw_hist", fcases, timeout=20), fcases, "fw_hist")
+    utr = _fix(run_tasks("c20", "run_uf_hist", ucases, timeout=120), ucases, "uf_hist")
+    ftr = _fix(run_tasks("c20", "run_fw_hist", fcases, timeout=120), fcases, "fw_hist")
     allt = utr + ftr
     vs = ck.validate(DIR, "C20Trace", allt, "random call histories (n<=64 UnionFind, n<=40 FenwickTree)")
     ck.classify(allt, vs, nontrivial=lambda t, v: len(t["events"]) >= 3)
